@@ -4,7 +4,7 @@ import { loadModule } from '../runtime/evalhost.mjs';
 
 export const id = 'C20';
 
-export const PROVENANCE = ['vueNamed', 'vueNamedInner', 'vueAliased', 'nsMember', 'localFn', 'shadowed', 'otherModule', 'localArrowConst', 'vueOtherExportAsName', 'vueNamedSplitImports'];
+export const PROVENANCE = ['vueNamed', 'vueNamedInner', 'vueAliased', 'nsMember', 'localFn', 'shadowed', 'otherModule', 'localArrowConst', 'vueOtherExportAsName', 'vueNamedSplitImports', 'vueAliasedPlusForeign', 'foreignAfterVueImport'];
 export const DECLS = ['const', 'let', 'var', 'exportConst', 'exportDefault', 'assignment', 'nestedInCall', 'objectProp'];
 // user-supplied option keys: how each of props / emits / name is written (or not)
 const KEY_FORMS = ['absent', 'kv', 'strKey', 'shorthand', 'computedLit', 'viaSpread'];
@@ -14,7 +14,7 @@ const USER = { props: 'UP', emits: 'UE', name: '"UserName"' };
 
 function buildCase(rng, prov, decl, shape, forms, resolveType) {
   const L = [];
-  const callee = { vueNamed: 'defineComponent', vueNamedInner: 'defineComponent', vueAliased: 'dc', nsMember: 'Vue.defineComponent', localFn: 'defineComponent', shadowed: 'defineComponent', otherModule: 'defineComponent', localArrowConst: 'defineComponent', vueOtherExportAsName: 'defineComponent', vueNamedSplitImports: 'defineComponent' }[prov];
+  const callee = { vueNamed: 'defineComponent', vueNamedInner: 'defineComponent', vueAliased: 'dc', nsMember: 'Vue.defineComponent', localFn: 'defineComponent', shadowed: 'defineComponent', otherModule: 'defineComponent', localArrowConst: 'defineComponent', vueOtherExportAsName: 'defineComponent', vueNamedSplitImports: 'defineComponent', vueAliasedPlusForeign: 'defineComponent', foreignAfterVueImport: 'defineComponent' }[prov];
   const needsCtxImport = true;
   switch (prov) {
     case 'vueNamed': case 'vueNamedInner': case 'shadowed': L.push('import { defineComponent, SetupContext } from "vue";'); break;
@@ -22,6 +22,10 @@ function buildCase(rng, prov, decl, shape, forms, resolveType) {
     case 'vueOtherExportAsName': L.push('import { defineAsyncComponent as defineComponent } from "vue";', 'import type { SetupContext } from "vue";'); break;
     case 'vueNamedSplitImports': L.push('import { defineComponent } from "vue";', 'import type { SetupContext } from "vue";', 'import { ref as unusedRef } from "vue";'); break;
     case 'nsMember': L.push('import * as Vue from "vue";', 'import type { SetupContext } from "vue";'); break;
+    // Vue's own defineComponent is imported under another name; the name defineComponent belongs to another module
+    case 'vueAliasedPlusForeign': L.push('import { defineComponent as defineVueComponent, SetupContext } from "vue";', 'import { defineComponent } from "other";'); break;
+    // a foreign defineComponent imported AFTER an import from vue
+    case 'foreignAfterVueImport': L.push('import { ref as unusedRef, SetupContext } from "vue";', 'import { defineComponent } from "other";'); break;
     case 'otherModule': L.push('import { defineComponent } from "other";', 'import type { SetupContext } from "vue";'); break;
     default: L.push('import type { SetupContext } from "vue";');
   }
